@@ -48,6 +48,9 @@ pub struct SubCase {
 	/// host the connections through the low-level `ws::connect` entry point
 	#[serde(default)]
 	pub lowlevel: bool,
+	/// every connection's service is built by `builder.clone().set_rpc_middleware(..).build(..)` (0 = no, 1 = rpc, 2 = http, 3 = both)
+	#[serde(default)]
+	pub per_conn_middleware: u8,
 }
 
 #[derive(Clone, Debug, PartialEq)]
@@ -115,7 +118,7 @@ fn family(b: bool) -> (&'static str, &'static str, &'static str) {
 
 impl SubWorld {
 	pub async fn new(case: &SubCase, duplex: usize, exact: bool) -> SubWorld {
-		let fix = Fixture::new_with(Cfg { max_subs: case.cap, buffer_capacity: case.buf.max(1), ..Cfg::default() }, case.string_ids);
+		let fix = Fixture::new_with(Cfg { max_subs: case.cap, buffer_capacity: case.buf.max(1), via_set_rpc_middleware: case.per_conn_middleware & 1 != 0, via_set_http_middleware: case.per_conn_middleware & 2 != 0, ..Cfg::default() }, case.string_ids);
 		let mut conns = vec![];
 		for _ in 0..case.conns.clamp(1, 3) {
 			let ws = if case.lowlevel { fix.ws_lowlevel().await.ok() } else { fix.ws_with(duplex).await.ok() };
